@@ -33,14 +33,27 @@ def _worker(conn, modname, fname, kwargs):
         conn.close()
 
 
-def run_pool(obs, nproc=None, hard_factor=3.0):
-    """run obligations concurrently, each in its own process with a hard wall-clock limit"""
+def run_pool(obs, nproc=None, hard_factor=3.0, budget_s=None):
+    """run obligations concurrently, each in its own process with a hard wall-clock limit; after budget_s seconds (whole pool) nothing new is
+    started and what is still running is stopped - those obligations are reported 'unknown (time budget)', i.e. lost, never as violations"""
     nproc = nproc or int(os.environ.get('VERIF_NPROC', max(1, (os.cpu_count() or 4))))
     ctx = mp.get_context('fork')
     pending = list(enumerate(obs))
     running = {}
     results = [None] * len(obs)
+    t_pool = time.time()
     while pending or running:
+        if budget_s is not None and time.time() - t_pool > budget_s:
+            for i, ob in pending:
+                results[i] = dict(verdict='unknown', detail='not started: time budget of the check (%d s) exhausted' % budget_s, seconds=0, wall=0, name=ob.name, kind=ob.kind, backend=ob.backend)
+            pending = []
+            for i in list(running):
+                p, pc, t0, ob = running[i]
+                p.kill(); p.join(timeout=5)
+                results[i] = dict(verdict='unknown', detail='stopped: time budget of the check (%d s) exhausted' % budget_s, seconds=time.time() - t0, wall=time.time() - t0,
+                                  name=ob.name, kind=ob.kind, backend=ob.backend)
+                del running[i]
+            break
         while pending and len(running) < nproc:
             i, ob = pending.pop(0)
             pc, cc = ctx.Pipe(duplex=False)
@@ -128,7 +141,10 @@ def run_property(mod, tier='quick', seed=0):
     except Exception as e:                                      # building the obligation list failed
         obs = []
         notes.append('obligation list could not be built: %s: %s' % (type(e).__name__, e))
-    results = run_pool(obs) if obs else []
+    # whole-pool budget: a quick check must stay well below a quarter of an hour even on a slow / loaded machine (what does not finish is 'lost', i.e.
+    # undecided in this run and listed in the evidence - never a violation); override with VERIF_POOL_BUDGET
+    budget = float(os.environ.get('VERIF_POOL_BUDGET', getattr(mod, 'POOL_BUDGET', {}).get(tier, 420 if tier == 'quick' else 7200)))
+    results = run_pool(obs, budget_s=budget) if obs else []
     discharged = [r for r in results if r['verdict'] == 'discharged']
     refuted = [r for r in results if r['verdict'] == 'refuted']
     lost = [r for r in results if r['verdict'] in ('unknown', 'unsupported', 'error')]
